@@ -36,9 +36,15 @@ TEMP  == 0        \* home of an object outside the variants' storage (argument, 
 
 NoThrowMove(a) == a \in NTMAlts    \* is_nothrow_move_constructible / assignable
 (* element operations that may throw (they consult the fault fuse) *)
-CanThrow(a, kind) == /\ a \in TrackedAlts
-                     /\ \/ kind \in {"value", "copy"}
-                        \/ kind \in {"move", "self"} /\ ~NoThrowMove(a)
+(* UntrackedThrowAlts: alternatives WITHOUT lifetime events (trivially copyable and destructible) whose constructor /
+   assignment from a value may nevertheless throw - after having written to its storage.  Only the fixture set in which
+   NO alternative has lifetime events (set "triv": <int, Tv1, Tv2, Tv3>, TrackedAlts = {}) has one: its alternative 3. *)
+TrivThrowAlts == {3}
+UntrackedThrowAlts == IF TrackedAlts = {} THEN TrivThrowAlts ELSE {}
+CanThrow(a, kind) == \/ /\ a \in TrackedAlts
+                        /\ \/ kind \in {"value", "copy"}
+                           \/ kind \in {"move", "self"} /\ ~NoThrowMove(a)
+                     \/ a \in UntrackedThrowAlts /\ kind = "value"
 
 Put(o, id, r) == [i \in (DOMAIN o) \cup {id} |-> IF i = id THEN r ELSE o[i]]
 Drop(o, id)   == [i \in (DOMAIN o) \ {id} |-> o[i]]
